@@ -149,8 +149,8 @@ def dipoleEdge (hx e fint gap : α) : Mat7 α :=
 /-- the zero-length ("thin corrector") body of `Dipole.transfer_map` -/
 def dipoleThin (L angle : α) : Mat7 α :=
   Mat7.ofRows
-    (row7 1.0 L 0.0 0.0 0.0 0.0 0.0) (row7 0.0 1.0 0.0 0.0 0.0 0.0 0.0)
-    (row7 0.0 0.0 1.0 L 0.0 0.0 angle) (row7 0.0 0.0 0.0 1.0 0.0 0.0 0.0)
+    (row7 1.0 L 0.0 0.0 0.0 0.0 0.0) (row7 0.0 1.0 0.0 0.0 0.0 0.0 angle)
+    (row7 0.0 0.0 1.0 L 0.0 0.0 0.0) (row7 0.0 0.0 0.0 1.0 0.0 0.0 0.0)
     (row7 0.0 0.0 0.0 0.0 1.0 0.0 0.0) (row7 0.0 0.0 0.0 0.0 0.0 1.0 0.0)
     (row7 0.0 0.0 0.0 0.0 0.0 0.0 1.0)
 
@@ -217,12 +217,8 @@ def vcorMap (L angle energy mc2 : α) : Mat7 α :=
     (row7 0.0 0.0 0.0 0.0 1.0 r56 0.0) (row7 0.0 0.0 0.0 0.0 0.0 1.0 0.0)
     (row7 0.0 0.0 0.0 0.0 0.0 0.0 1.0)
 
-/-- `Undulator.transfer_map`; the R56 formula is a parameter of the correspondence: the code on
-this tree is read by the harness, the drift's formula is what C02/C09 demand -/
-def undulatorMapPinned (L energy mc2 : α) : Mat7 α :=
-  let gamma := energy / mc2
-  let ig2 := if eqb gamma 0.0 then 0.0 else 1.0 / (gamma * gamma)
-  driftLike L (L * ig2)
+/-- `Undulator.transfer_map` (after the `fix:` commit: the drift's map) -/
+def undulatorMap (L energy mc2 : α) : Mat7 α := driftLike L (driftR56 L energy mc2)
 
 /-- the cavity R-matrix entries (`Cavity._cavity_rmatrix`, η = 1) -/
 structure CavE (α : Type) where
